@@ -46,6 +46,25 @@ def suite_passes():
     return passed
 
 
+if "--recheck" in sys.argv:
+    dst = f"/verif/seeded/{seed_id}"
+    meta = json.load(open(os.path.join(dst, "meta.json")))
+    assert sh("git -C /repo status --porcelain --untracked-files=no").stdout.strip() == "", "/repo not clean"
+    ap = sh(f"git -C /repo apply {dst}/patch.diff")
+    assert ap.returncode == 0, ap.stderr
+    try:
+        chk = sh(f"cd /verif && ./check {prop} --tier quick")
+    finally:
+        sh("git -C /repo checkout -- .")
+    sigs = sorted({ln.split(" :: ")[0].replace("violation: ", "") for ln in chk.stdout.splitlines() if ln.startswith("violation: ")})
+    meta.setdefault("check_history", []).append(meta["check_result"])
+    meta["check_result"] = {"cmd": f"./check {prop} --tier quick", "exit": chk.returncode, "signatures": sigs[:10],
+                            "caught": chk.returncode == 1,
+                            "verif_commit": sh("git -C /verif rev-parse --short HEAD").stdout.strip() + "+"}
+    json.dump(meta, open(os.path.join(dst, "meta.json"), "w"), indent=1)
+    print("rechecked", seed_id, "exit", chk.returncode, sigs[:4])
+    sys.exit(0)
+
 assert sh(f"git -C {wt} status --porcelain --untracked-files=no").stdout.strip() == "", "worktree not clean"
 # bring the worktree to /repo's HEAD so the patch is judged against the current tree
 sh(f"git -C {wt} checkout -q --detach $(git -C /repo rev-parse HEAD)")
